@@ -51,3 +51,85 @@ package kernel
 //@ func (chain *Chain) determineBestRound
 //@   opaque
 //@   modifies nothing
+
+//@ -- LinksSame: no entry of the in-memory link map has changed
+//@ spec ExtNode(chain *Chain, h crypto.Hash) crypto.Hash = storage.SRoundNodeId(SV(chain), h)
+//@ spec ExtNumber(chain *Chain, h crypto.Hash) mathint = storage.SRoundNumber(SV(chain), h)
+
+//@ func (chain *Chain) validateNewRound
+//@   property C20
+//@   requires ChainOK(chain) && cache != nil && references != nil && RoundOK(cache)
+//@   requires [mirror] MirrorOK(chain)
+//@   panics when chain.ChainId != cache.NodeId
+//@   modifies cache.Snapshots[..], chain.State.RoundLinks[..], chain.node.chains.m[..]
+//@   ensures [shape] (err != nil ==> result0 == nil && !result1) && (result1 ==> finalized && result0 != nil)
+//@   ensures [fresh] result0 != nil ==> fresh(result0)
+//@   ensures [self] result0 != nil ==> references.Self == result0.Hash && result0.NodeId == chain.ChainId && result0.Number == cache.Number
+//@   ensures [nonempty] result0 != nil ==> len(cache.Snapshots) != 0
+//@   ensures [span] result0 != nil ==> result0.Start <= result0.End
+//@   ensures [final] result0 != nil ==> result0.Hash == common.RoundChain(common.RoundSeed(cache.NodeId, cache.Number), cache.Snapshots, len(cache.Snapshots))
+//@   ensures [known] result0 != nil && !result1 ==> storage.SHasRound(SV(chain), references.External) &&
+//@       ExtNode(chain, references.External) != chain.ChainId &&
+//@       LinkAt(chain, ExtNode(chain, references.External)) == ExtNumber(chain, references.External) &&
+//@       ExtNumber(chain, references.External) >= old(LinkAt(chain, ExtNode(chain, references.External)))
+//@   ensures [others] forall id crypto.Hash :: {has(chain.State.RoundLinks, id)} (result0 == nil || result1 || id != ExtNode(chain, references.External)) ==>
+//@       LinkAt(chain, id) == old(LinkAt(chain, id))
+//@   ensures [dummy] result1 ==> !storage.SHasRound(SV(chain), references.External)
+
+//@ -- wakeAllChains: RLock on the chains map, then a non-blocking channel send per chain (select: out of subset). It writes no memory.
+//@ func (node *Node) wakeAllChains
+//@   opaque
+//@   modifies nothing
+
+//@ spec HistoryOK(chain *Chain) bool = len(chain.State.RoundHistory) > 0 && len(chain.State.RoundHistory) < 1152921504606846976 &&
+//@     forall i int :: 0 <= i && i < len(chain.State.RoundHistory) ==> chain.State.RoundHistory[i] != nil
+//@ spec LastHistory(chain *Chain) mathint = chain.State.RoundHistory[len(chain.State.RoundHistory) - 1].Number
+
+//@ func reduceHistory
+//@   property C20
+//@   requires len(rounds) > 0 && forall i int :: 0 <= i && i < len(rounds) ==> rounds[i] != nil
+//@   modifies nothing
+//@   loop 0 invariant fresh(newRounds) && forall i int :: 0 <= i && i < len(rounds) ==> rounds[i] != nil
+
+//@ func (chain *Chain) assignNewGraphRound
+//@   property C20
+//@   requires ChainOK(chain) && final != nil && cache != nil && HistoryOK(chain)
+//@   panics when chain.ChainId != cache.NodeId || chain.ChainId != final.NodeId || U64(final.Number + 1) != cache.Number ||
+//@       (LastHistory(chain) != final.Number && U64(LastHistory(chain) + 1) != final.Number)
+//@   modifies chain.State.CacheRound, chain.State.FinalRound, chain.State.RoundHistory, chain.State.RoundHistory[..cap], chain.node.GraphTimestamp, chain.FinalIndex, chain.FinalCount
+//@   ensures [assigned] chain.State.CacheRound == cache && chain.State.FinalRound == final
+
+//@ -- the external round hash the new head round carries: the requested one, or (dummy path) the one of the round being closed
+//@ spec NewExt(dummy bool, references *common.RoundLink, oldExt crypto.Hash) crypto.Hash = dummy ? oldExt : references.External
+
+//@ func (chain *Chain) startNewRoundAndPersist
+//@   property C20
+//@   requires ChainOK(chain) && cache != nil && cache.References != nil && references != nil && RoundOK(cache) && HistoryOK(chain)
+//@   requires [mirror] MirrorOK(chain)
+//@   requires [own] chain.ChainId == cache.NodeId -- validateNewRound panics otherwise; callers pass chain.State.CacheRound
+//@   requires [nowrap] cache.Number < 18446744073709551615
+//@   requires [history] LastHistory(chain) == cache.Number || LastHistory(chain) + 1 == cache.Number -- assignNewGraphRound panics otherwise
+//@   requires [store-head] storage.SHasRound(SV(chain), chain.ChainId) && storage.SHasRound(SV(chain), cache.References.External)
+//@   requires [cur-link] storage.SLink(SV(chain), chain.ChainId, ExtNode(chain, cache.References.External)) == ExtNumber(chain, cache.References.External)
+//@   maypanic -- `panic(err)` when the durable write fails: the node aborts (deliberate: memory and store would disagree)
+//@   modifies ghost storever, cache.Snapshots[..], chain.State.RoundLinks[..], chain.node.chains.m[..],
+//@       chain.State.CacheRound, chain.State.FinalRound, chain.State.RoundHistory, chain.State.RoundHistory[..cap], chain.node.GraphTimestamp, chain.FinalIndex, chain.FinalCount
+//@   ensures [shape] (err != nil ==> result1 == nil) && (result1 == nil <==> result0 == nil) && (result2 ==> result1 != nil && finalized)
+//@   ensures [rejected] result1 == nil ==> SV(chain) == old(SV(chain)) && chain.State.CacheRound == old(chain.State.CacheRound) && chain.State.FinalRound == old(chain.State.FinalRound) &&
+//@       (forall id crypto.Hash :: {has(chain.State.RoundLinks, id)} LinkAt(chain, id) == old(LinkAt(chain, id)))
+//@   ensures [next] result1 != nil ==> fresh(result0) && fresh(result1) && result0.NodeId == chain.ChainId && result1.NodeId == chain.ChainId &&
+//@       result1.Number == cache.Number && result0.Number == result1.Number + 1 && len(result0.Snapshots) == 0
+//@   ensures [self-ref] result1 != nil ==> result0.References != nil && result0.References.Self == result1.Hash && references.Self == result1.Hash &&
+//@       result1.Hash == common.RoundChain(common.RoundSeed(cache.NodeId, cache.Number), cache.Snapshots, len(cache.Snapshots))
+//@   ensures [external] result1 != nil ==> result0.References.External == NewExt(result2, references, old(cache.References.External))
+//@   ensures [known] result1 != nil && !result2 ==> old(storage.SHasRound(SV(chain), references.External)) && old(ExtNode(chain, references.External)) != chain.ChainId
+//@   ensures [assigned] result1 != nil ==> chain.State.CacheRound == result0 && chain.State.FinalRound == result1
+//@   ensures [mem-link] result1 != nil && !result2 ==> LinkAt(chain, old(ExtNode(chain, references.External))) == old(ExtNumber(chain, references.External)) &&
+//@       old(ExtNumber(chain, references.External)) >= old(LinkAt(chain, ExtNode(chain, references.External)))
+//@   ensures [durable-head] result1 != nil ==> storage.SRoundNumber(SV(chain), chain.ChainId) == result0.Number && storage.SRoundSelf(SV(chain), chain.ChainId) == result1.Hash &&
+//@       storage.SRoundExternal(SV(chain), chain.ChainId) == result0.References.External &&
+//@       storage.SHasRound(SV(chain), result1.Hash) && storage.SRoundNumber(SV(chain), result1.Hash) == old(storage.SRoundNumber(SV(chain), chain.ChainId))
+//@   ensures [durable-link] result1 != nil ==> let x == old(ExtNode(chain, NewExt(result2, references, cache.References.External))) in
+//@       storage.SLink(SV(chain), chain.ChainId, x) == old(ExtNumber(chain, NewExt(result2, references, cache.References.External))) &&
+//@       storage.SLink(SV(chain), chain.ChainId, x) >= old(storage.SLink(SV(chain), chain.ChainId, x))
+//@   ensures [mirror-kept] result1 != nil ==> MirrorOK(chain)
